@@ -492,14 +492,17 @@ def run_enumeration(cfg, T, reward_fn, make_oracles, stats, prefix=(), budget_ki
         stats.executions += 1
         return pts
 
+    stopped = False
     try:
         n, exhausted = enumerate_scripts(run, prefix=prefix, max_exec=max_exec, budget_kinds=budget_kinds, k=k,
                                          deadline=deadline)
     except StopEnumeration:
         n, exhausted = state["n"], False
+        stopped = True
     if not exhausted:
         stats.exhaustive = False
-        stats.caps.append({"config": cfg, "executions_done": n, "cap": "max_exec/deadline"})
+        stats.caps.append({"config": cfg, "executions_done": n,
+                           "cap": "stopped after 3 violations in this task (every execution fails the same way)" if stopped else "max_exec/deadline"})
     return n
 
 
